@@ -93,6 +93,21 @@ CLAIMED.update({
         note=RESP_NOTE, technique="Coq proof (structural induction with nested lists, decimal codec round trip, reply well-formedness) + byte-for-byte differential correspondence and TCP reply re-parsing", ref="DESIGN.md §5 C14"),
 })
 
+CLAIMED.update({
+    "C15": dict(
+        text="Machine-checked theorems (Properties/C15.v): an interleaving LTS of recorder threads (each operation = three atomic increments in the program order of metrics.rs); for any number of "
+             "threads, programs and interleavings, at every quiescent state total = http+grpc+redis = allowed+denied+errors and each counter equals the events performed; counters are monotone; "
+             "and on RESP a command is counted as denied exactly when the reply sent is a denial decision (command-handler model). Real Metrics exercised with 2..64 OS threads and over TCP.",
+        note=RESP_NOTE + " Atomicity of fetch_add and the happens-before edge at a quiescent point are modelled, not verified.",
+        technique="Coq proof (invariant over an interleaving transition system; case analysis of the command handler) + multi-threaded and TCP differential correspondence", ref="DESIGN.md §5 C15"),
+    "C16": dict(
+        text="Machine-checked theorems (Properties/C16.v): for the relational model of TopDeniedKeys (every eviction survivor choice, every tie order): report shape, never overstates, exact while few, "
+             "256-byte filter, 3*max(+1) memory bound, clamp/disable; and for the label escaping: a Prometheus label scanner reads back exactly the escaped key for ANY code points, no raw control "
+             "character, one line feed per sample line. Every real table step (hook H3) is checked against the relation; escaping compared with the model.",
+        note=RESP_NOTE + " HashMap iteration order is a relation in the model; trace acceptance for table limits <= 3 is evaluated in Coq, larger limits by the Rust-side oracles only.",
+        technique="Coq proof (relational model + invariants; escaping/scanner inverse by induction) + trace acceptance against hook snapshots", ref="DESIGN.md §5 C16"),
+})
+
 PENDING_REASON = ("framework for this property is still being built in this round (DESIGN.md §8.2 order of work); "
                   "no check is claimed until its theorems and correspondence run")
 
